@@ -17,6 +17,9 @@ func init() { core.Register(prop{}) }
 func (prop) ID() string { return "C02" }
 
 func (prop) Run(c core.Case) core.Outcome {
+	if c.Op == "bigpe" {
+		return runBig(c)
+	}
 	in, ops := ue.Unpack(c)
 	e := ue.Evaluate(in, ops)
 	out := core.Outcome{Class: e.Class(), Key: e.Key()}
@@ -28,7 +31,7 @@ func (prop) Run(c core.Case) core.Outcome {
 
 func (prop) Gen(r *rand.Rand, tier string) []core.Case {
 	if tier == "thorough" {
-		return append(ue.ExhaustiveCases(3), ue.RandomCases(r, 20000, true)...)
+		return append(append(ue.ExhaustiveCases(3), bigCases(tier)...), ue.RandomCases(r, 20000, true)...)
 	}
-	return append(ue.ExhaustiveCases(1), ue.RandomCases(r, 400, true)...)
+	return append(append(ue.ExhaustiveCases(1), bigCases(tier)...), ue.RandomCases(r, 400, true)...)
 }
